@@ -68,6 +68,8 @@ def gen_device(g, big=20000, auth=False):
         'clse_zero': g.chance(0.15),
         'latency': {'mode': 'zero'} if g.chance(0.4) else {'mode': 'small', 'max': g.pick([0.001, 0.02, 0.2])},
         'rid_style': g.pick(['wide', 'wide', 'high']),
+        'inflight_on_close': g.chance(0.5),
+        'reply_before_okay': g.pick([0, 0, 0, 1, 2, 5]),
         'cmds': {}, 'fs': {}, 'dirs': {},
         'cut_plans': [{'policy': g.pick(CUT_POLICIES), 'seed': g.int(0, 1 << 30)} for _ in range(g.int(1, 3))],
     }
